@@ -8,6 +8,8 @@ params:
   threads     list, one entry per input: number t of the completer thread comp<t> that resolves it
   fails       list of input indices that fail (with their own exception) instead of succeeding
   fn_fails    the function itself raises
+  rendezvous  a second, independent f_apply is resolved from another thread 100 ticks after the last input; the first
+              application's function waits (up to 1500 ticks) for the second one's function to have started
   base_exc    the failing inputs fail with an exception deriving from BaseException only
   kwnames     names of the keyword arguments (default k1, k2); any identifiers f_apply can be given
 
@@ -76,9 +78,20 @@ def build(p):
                 xs += [j, v]
             return xs
 
+        twin = {"started": False, "out": None}
+
         def fn(*args, **kwargs):
             E.emit("FnCalled", a=len(args), c=len(kwargs), xs=enc(args, kwargs))
             E.upoint()
+            if p.get("rendezvous"):
+                # this applied function needs ANOTHER f_apply's function (resolved from another thread) to have started:
+                # applications are independent of each other, nothing may serialise them
+                waited = 0
+                while not twin["started"] and waited < 1500:
+                    E.vsleep(50)
+                    waited += 50
+                if not twin["started"]:
+                    raise ApplyErr("rendezvous with the other application never happened")
             if p.get("fn_fails"):
                 E.emit("FnRaise", b=FNEXC)
                 raise fnexc
@@ -125,6 +138,19 @@ def build(p):
 
         ths = [E.spawn("comp%d" % t, completer, t)
                for t in sorted(set(threads[i] for i in range(n + 1) if times[i] > 0))]
+        if p.get("rendezvous"):
+            def fn2():
+                twin["started"] = True
+                return 0
+
+            ff2 = Future()
+            twin["out"] = f_apply(ff2)
+
+            def twin_completer():
+                E.vsleep(max(max(times) + 100, 100))
+                ff2.set_result(fn2)
+
+            ths.append(E.spawn("twin", twin_completer))
         H.wait_all([out], horizon)
         for t in ths:
             t.join()
